@@ -26,6 +26,10 @@ def rand_int_ft(rng, unsigned_only=False, small=False):
         size = rng.choice([3, 8, 8, 16, 32, 13])
     sg = False if unsigned_only else rng.random() < 0.4
     mode = rng.random()
+    if not small and mode > 0.88:
+        # boundary of the memcpy fast path of serialize-write-bit-array-statements.j2: a standard size (8, 16, 32, 64)
+        # with an alignment below 8 bits, i.e. a field which may start inside a byte and must go through the bit-field macros
+        return ('int', sg, rng.choice([8, 8, 16, 32, 64]), rng.choice([1, 1, 2, 4]))
     if mode < 0.45:
         al = 8 if size % 8 == 0 else 1          # barectf's default
     else:
@@ -78,14 +82,17 @@ def rand_struct_focus(rng):
 
     def odd_aligned():
         return ('int', rng.random() < 0.3, rng.choice([3, 5, 12, 17, 20, 33]), rng.choice([8, 8, 16, 32]))
+    def std_unaligned():
+        # standard size, alignment below a byte: looks like a memcpy candidate, must be bit-packed
+        return ('int', rng.random() < 0.4, rng.choice([8, 8, 16, 32, 64]), rng.choice([1, 1, 2, 4]))
     names = rng.sample(NAMES, 6)
     members = []
     for nm in names[:rng.randint(3, 6)]:
         r = rng.random()
         if r < 0.3:
-            members.append((nm, sub()))
+            members.append((nm, sub() if rng.random() < 0.6 else std_unaligned()))
         elif r < 0.5:
-            members.append((nm, ('sarr', rng.choice([0, 0, 1, 2]), odd_aligned() if rng.random() < 0.7 else sub())))
+            members.append((nm, ('sarr', rng.choice([0, 0, 1, 2]), odd_aligned() if rng.random() < 0.6 else (sub() if rng.random() < 0.6 else std_unaligned()))))
         elif r < 0.7:
             members.append(('__%s_len' % nm, ('int', False, 32, 8)))
             members.append((nm, ('darr', odd_aligned() if rng.random() < 0.7 else sub())))
